@@ -68,7 +68,18 @@ claim("C11", "model_checking", RUNTXT + "Invariants: NoLostNoDup, ExitIffError, 
       "TLA+ spec Run.tla model-checked with TLC (all interleavings); spec->impl replay of every TLC outcome assignment "
       "through the CLI; impl->spec trace validation (TraceRun.tla, TraceDetect.tla)", "DESIGN.md §6 C11")
 
-for pid in ["C03", "C04", "C05", "C10", "C12", "C13", "C14", "C15", "C16", "C17", "C18", "C19", "C20"]:
+claim("C13", "model_checking", "TLC enumerates every token sequence of each rule-attribute grammar of RuleSyntax.tla "
+      "(line-count expression, sort direction, sort format, severity, affects references, regex) with the verdict "
+      "valid / invalid / gray, and model-checks Run!FailClosed (an Err of any validator or block task ends the run in "
+      "Error under every interleaving); each emitted value is placed on a block among clean, violating and warning "
+      "neighbours in either file and run in-process (all) and through the CLI (sample); an explicit battery covers the "
+      "script / condition / key / numeric-key malformations.",
+      "Trusted: token spellings; the un-hedged contexts built by the concretiser (block with content, modified block, "
+      "violating block). Gray: bracket classes, '**' and duplicate group names in regexes; a single non-numeric key.",
+      "TLA+ specs RuleSyntax.tla (validity predicates, exhaustive token enumeration by TLC) and Run.tla (FailClosed over "
+      "all interleavings); spec->impl replay of every emitted value", "DESIGN.md §6 C13")
+
+for pid in ["C03", "C04", "C05", "C10", "C12", "C14", "C15", "C16", "C17", "C18", "C19", "C20"]:
     NA[pid] = "check not built yet in this round (planned, see DESIGN.md §6); not a limit of the technique"
 
 
